@@ -2119,7 +2119,7 @@ pub fn run(a: &Args) -> i32 {
         return ctx.finish();
     }
 
-    let docs: u64 = if miri { 200 } else if quick { 260_000 } else { 3_600_000 };
+    let docs: u64 = if miri { 200 } else if quick { 260_000 } else { 6_000_000 };
     let guard_s: f64 = if quick { 46.0 } else { 530.0 };
     let cap: usize = 400_000;
     let nworkers = if miri { 1 } else { WORKERS };
